@@ -12,6 +12,10 @@ import (
 	"github.com/bio-routing/bio-rd/protocols/bgp/server"
 	"github.com/bio-routing/bio-rd/protocols/bgp/types"
 	"github.com/bio-routing/bio-rd/route"
+	"github.com/bio-routing/bio-rd/routingtable"
+	"github.com/bio-routing/bio-rd/routingtable/adjRIBOut"
+	"github.com/bio-routing/bio-rd/routingtable/filter"
+	"github.com/bio-routing/bio-rd/routingtable/locRIB"
 
 	"verifharness/core"
 	"verifharness/wire"
@@ -240,15 +244,36 @@ func init() {
 			if ticker {
 				u.Start(200 * time.Microsecond)
 			}
+			// via_ribout: the calls go to the session's Adj-RIB-Out, the sender is its client (an accept-all export policy; the
+			// bundles stay apart in the attribute that tells them apart, whatever the Adj-RIB-Out rewrites)
+			var out *adjRIBOut.AdjRIBOut
+			if p.Bool("via_ribout", false) {
+				sa := routingtable.SessionAttrs{RouterID: 100, PeerIP: addr(s.V6, 77).Ptr(), LocalIP: addr(s.V6, 200).Ptr(), Type: route.BGPPathType,
+					IBGP: s.IBGP, LocalASN: 65000, PeerASN: 65077, AddPathTX: s.AddPath}
+				if s.IBGP {
+					sa.PeerASN = 65000
+					sa.RouteReflectorClient = true
+				}
+				out = adjRIBOut.New(locRIB.New("inet.0"), sa, filter.NewAcceptAllFilterChain())
+				out.Register(u)
+			}
 			var dv *core.Divergence
 			for i, st := range b.Steps {
 				a := st.Str("a")
 				core.At(i, a)
 				switch a {
-				case "AddPath":
-					u.AddPath(senderPrefix(st.Str("pfx"), s.V6), senderPath(st.Str("p"), s))
+				case "AddPath", "Put":
+					if out != nil {
+						out.AddPath(senderPrefix(st.Str("pfx"), s.V6), senderPath(st.Str("p"), s))
+					} else {
+						u.AddPath(senderPrefix(st.Str("pfx"), s.V6), senderPath(st.Str("p"), s))
+					}
 				case "RemovePath":
-					u.RemovePath(senderPrefix(st.Str("pfx"), s.V6), senderPath(st.Str("p"), s))
+					if out != nil {
+						out.RemovePath(senderPrefix(st.Str("pfx"), s.V6), senderPath(st.Str("p"), s))
+					} else {
+						u.RemovePath(senderPrefix(st.Str("pfx"), s.V6), senderPath(st.Str("p"), s))
+					}
 				case "Flush":
 					if ticker {
 						deadline := time.Now().Add(5 * time.Second)
